@@ -251,6 +251,23 @@ class SymOps:
         sel = z3.Select(arr, j)
         return z3.ForAll([j], f(j + 1) == f(j) + (z3.ToReal(sel) if z3.is_int(sel) else sel), patterns=[f(j + 1), sel])
 
+    # -- dicts (heap dicts with key sequence, see pyvc/dicts.py)
+    def has(self, d, r):
+        return d.has(self.v(r))
+
+    def field(self, d, r, f):
+        return d.field(self.v(r), f)
+
+    def pos(self, d, r):
+        return d.pos(self.v(r))
+
+    def forall_key(self, fn, *dicts):
+        """for every possible key (the dicts name the finite universe for the concrete evaluation)"""
+        from .engine import V
+        self._n += 1
+        r = z3.Const(f"key?{self._n}", V)
+        return z3.ForAll([r], self.b(fn(r)))
+
     def getitem(self, x, key):
         from .engine import V
         return z3.Function("getitem", V, V, V)(self.v(x), self.v(key))
@@ -415,6 +432,23 @@ class ConcOps:
 
     def eq(self, x, y):
         return x == y
+
+    def has(self, d, r):
+        return r in d
+
+    def field(self, d, r, f):
+        return d[r][f]
+
+    def pos(self, d, r):
+        return list(d).index(r)
+
+    def forall_key(self, fn, *dicts):
+        keys = []
+        for d in dicts:
+            for key in (d or {}):
+                if key not in keys:
+                    keys.append(key)
+        return all(bool(fn(key)) for key in keys)
 
     def getitem(self, x, key):
         return x[key]
